@@ -63,6 +63,7 @@ def lp_encoding(ctx, rule):
     """min c^T x s.t. A x <= b with free variables; status() = zero objective; solve_linprog solves exactly that encoding (shared with C10.R1)."""
     from ..mir import Resolver, fmt, literals, walk, strip_sites as s
     from .prune import is_call
+    F = ctx.facts
     # (c) LP encoding
     b = ctx.body(rule, 'AffFuncBase::as_linprog')
     if b is not None:
@@ -88,6 +89,11 @@ def lp_encoding(ctx, rule):
                 is_call(row_item[0][2][0], 'zip') and is_call(row_item[0][2][0][2][0], 'ArrayBase::rows') and row_item[0][2][0][2][0][2][0] == ('field', ('param', 'self'), 'mat') \
                 and row_item[0][2][0][2][1] == ('field', ('param', 'self'), 'bias')
             coeffs_ok = any(is_call(x, 'zip') and s(x[2][1]) == s(('field', row_item[0], '0')) for x in walk(a[1])) if row_item else False
+            if not coeffs_ok and row_item:
+                # the terms are collected with pushes in a loop instead of map+collect: every element pairs a variable with the coefficient zipped to it
+                from .prune import vec_elements
+                els = vec_elements(F, b, R, a[1]) or []
+                coeffs_ok = bool(els) and all(any(is_call(x, 'zip') and s(x[2][1]) == s(('field', row_item[0], '0')) for x in walk(e_)) for e_ in els)
             uncond = all(l[0] == 'is' and is_call(l[1], 'Iterator::next') for l in ac[0][2])
             if not (okc and coeffs_ok and uncond):
                 problems.append('constraints are not "row i · vars <= bias i" for every row (op=%s rhs/row=%s coeffs=%s unconditional=%s)' % (fmt(a[2]), okc, coeffs_ok, uncond))
